@@ -31,6 +31,25 @@ def ref_decrypt(crypt):
     return out
 
 
+def ref_encrypt(plain, salt_char, fillers=None):
+    """Independent $9$ encoder (after Crypt::Juniper); fillers default to alphabet characters chosen by position."""
+    extra = 3 - next(i for i, f in enumerate(FAMILY) if salt_char in f)
+    fill = fillers if fillers is not None else "".join(ALPHA[(7 * k + 3) % 65] for k in range(extra))
+    out = "$9$" + salt_char + fill
+    prev = salt_char
+    for pos, ch in enumerate(plain):
+        enc = ENC[pos % 7]
+        v = ord(ch)
+        gaps = []
+        for w in reversed(enc):
+            gaps.insert(0, v // w)
+            v %= w
+        for g in gaps:
+            prev = ALPHA[(ALPHA.index(prev) + g + 1) % 65]
+            out += prev
+    return out
+
+
 def well_formed(s):
     return s.startswith("$9$") and len(s) >= 7 and all(c in ALPHA for c in s[3:])
 
